@@ -55,7 +55,7 @@ class SpecBuiltins:
         guards = []
         for n, tn in zip(names, tnodes):
             ty = self.cdb.types.spec_ty(tn, fr.module)
-            c = it.fresh("q_" + n, ty.sort())
+            c = it.bound("q_" + n, ty.sort())
             consts.append(c)
             nfr.env[n] = SV(ty, c)
             if isinstance(ty, TObj):
@@ -206,8 +206,8 @@ class SpecBuiltins:
 
     def s_inj(self, it, node, fr):
         (d,), fr = self._args(it, node, fr)
-        k1 = it.fresh("ik1", d.ty.k.sort())
-        k2 = it.fresh("ik2", d.ty.k.sort())
+        k1 = it.bound("ik1", d.ty.k.sort())
+        k2 = it.bound("ik2", d.ty.k.sort())
         dom, val = d.ty.dom(d.term), d.ty.val(d.term)
         return SV(TBool, z3.ForAll([k1, k2], z3.Implies(z3.And(z3.Select(dom, k1), z3.Select(dom, k2), z3.Select(val, k1) == z3.Select(val, k2)), k1 == k2)))
 
@@ -292,6 +292,14 @@ class SpecBuiltins:
         (g,), fr = self._args(it, node, fr)
         from .tys import VGen
         return SV(TStr, z3.StringVal(g.kind if isinstance(g, VGen) else "value"))
+
+    def s_elems(self, it, node, fr):
+        """The sequence a generator / iterable result would yield."""
+        (g,), fr = self._args(it, node, fr)
+        from .tys import VGen
+        if isinstance(g, VGen) and g.kind == "genexp":
+            return it.cdb.builtins.list_comp(it, g.node, g.frame)
+        return it.iter_to_seq(g, fr)
 
     def s_result(self, it, node, fr):
         raise Unsupported("result is a name, not a call")
